@@ -45,9 +45,42 @@ CHECKS = {
         note="Exploration, not proof. Process-level failures (stack overflow, abort, hang) surface as a dead/timed-out driver, "
              "i.e. a tool error of the check, not as a modelled event.",
         technique="randomised/mutational exploration with the ParserContract TLA+ trace specification as oracle"),
+    "C06": dict(
+        category="model_checking",
+        text="The Dimacs grammar machine (one TLA+ operator per token function; numerals as arbitrary-precision digit "
+             "sequences whose arithmetic and type bounds are model-checked in MC_Digits) computes from the input bytes what "
+             "every call of the real CNF/WCNF/GCNF parsers must return; documents with numerals on and around every limit "
+             "are validated call by call (acceptance, values, error locations). For AIGER the reference reading AigerRef "
+             "(arbitrary precision, all declared limits enforced) must equal the items of every accepted run, incl. "
+             "boundary literals and delta codes of every encoded length.",
+        design_ref="DESIGN.md §3.7, §5 C06",
+        note="BTOR2 numbers are u64 node ids / widths without declared limits; they are covered by C01/C03/C05 only. The "
+             "solver-log parser's literal limit is covered through the contract-level checks and the corruption catalogue.",
+        technique="TLA+ token-level grammar machine / reference reading as oracle for trace validation of boundary inputs"),
+    "C07": dict(
+        category="model_checking",
+        text="Abstract formulas and solver logs are rendered canonically and in alternative layouts covering every optional "
+             "whitespace, line-break, comment and numeral-spelling choice; ParserContract requires every layout to yield the "
+             "canonical rendering's items and a clean end, and Trace_Dimacs requires each run to be exactly what the token "
+             "grammar machine computes; MC_Scan model-checks the whitespace/newline helpers the layout rules rest on.",
+        design_ref="DESIGN.md §3.7, §5 C07",
+        note="Layouts are sampled from the layout grammar (6 per value), not enumerated; the solver log is held to the "
+             "contract only (no token-level machine).",
+        technique="trace validation of layout variants against the Dimacs TLA+ machine and the cross-layout contract"),
+    "C10": dict(
+        category="model_checking",
+        text="BufBound (buffer length <= 3 chunks + largest look-ahead) is an invariant of the reader design model for all "
+             "operation histories; generated inputs of 1 MiB .. 128 MiB are streamed through all seven parsers for three "
+             "chunk sizes and three read sizes, and the observed largest buffer length/capacity and peak heap of every run "
+             "must satisfy ParserContract!StreamOk, a bound in chunk size and longest item only.",
+        design_ref="DESIGN.md §5 C10",
+        note="Constant chunk size; release build; the generator repeats a block of well-formed lines (bounded item size).",
+        technique="TLA+ invariant of the reader model (TLC) + monitored streaming runs validated against StreamOk"),
     "C08": dict(
         category="exploration",
-        text="Sentence 1 is a ParserContract step condition evaluated at every give_up and line_at_offset event of every "
+        text="Sentence 2: a corruption catalogue (garbage token, overflowing number, out-of-range literal at a known span of "
+             "a well-formed cnf/wcnf/gcnf/log/aag/btor2 document) whose reported line/column must lie on the corrupted token; "
+             "for the DIMACS family the Dimacs machine fixes every error location exactly. Sentence 1 is a ParserContract step condition evaluated at every give_up and line_at_offset event of every "
              "recorded run (line = LFs before the line start + 1, position >= line start, column within the line, returned "
              "location = computed location), over mutated inputs and all chunkings.",
         design_ref="DESIGN.md §5 C08",
